@@ -276,21 +276,21 @@ func CheckResult(q gen.Q, exp []ExpRow, got [][]string) string {
 			}
 		}
 		if wantRows < n && wantRows > 0 {
-			// top-k: every expected group strictly better than the worst printed key must be printed
+			// top-k: every expected group strictly better than the worst printed key must be printed. Which printed row
+			// belongs to which group is not always observable (wildcard cells, no key column), so the rule is stated on
+			// counts: the groups that are definitely better than the worst printed key cannot outnumber the printed
+			// rows that are better than it.
 			worst := keys[len(keys)-1]
-			used := map[int]bool{}
-			for _, j := range m {
-				used[j] = true
-			}
 			var expKeys []float64
-			for j, er := range exp {
+			better := 0
+			for _, er := range exp {
 				c := er.Cells[col]
 				var k float64
 				switch c.Kind {
 				case "any":
 					continue
 				case "oneof":
-					// ambiguous: take the best possible reading for 'must be printed' only if single
+					// ambiguous unless there is a single candidate
 					if len(c.OneOf) != 1 {
 						continue
 					}
@@ -302,9 +302,19 @@ func CheckResult(q gen.Q, exp []ExpRow, got [][]string) string {
 				}
 				expKeys = append(expKeys, k)
 				tol := NumTol(k)
-				if !used[j] && ((!q.Reverse && k > worst+tol) || (q.Reverse && k < worst-tol)) {
-					return "limit: a group with a better order key than the last printed row is missing"
+				if (!q.Reverse && k > worst+tol) || (q.Reverse && k < worst-tol) {
+					better++
 				}
+			}
+			printedBetter := 0
+			for _, k := range keys {
+				tol := NumTol(k)
+				if (!q.Reverse && k > worst+tol) || (q.Reverse && k < worst-tol) {
+					printedBetter++
+				}
+			}
+			if better > printedBetter {
+				return "limit: " + strconv.Itoa(better) + " groups have a better order key than the last printed row, only " + strconv.Itoa(printedBetter) + " such rows are printed"
 			}
 			sort.Float64s(expKeys)
 		}
